@@ -370,8 +370,12 @@ def gen(item, rng, tier):
             slots.append({'t': 'ldr', 'w': T.ldst_imm('ldr', rd, 6, off), 'rd': rd, 'addr': P.DBASE + 4 * off})
         elif t == 'b':
             # a branch as last slot, skipping the 16-bit marker that follows the block: B (T2), B.W (T4), BL, BX Rm, BLX Rm
-            form = rng.choice(['b', 'b', 'bw', 'bl', 'bx', 'blx', 'movpc', 'ldrpc', 'tbb', 'tbh', 'ldmpc', 'ldmpcw'] + ([] if (sp_loaded or stack_used) else ['poppc', 'poppc', 'poppcw']))
+            form = rng.choice(['b', 'b', 'bw', 'bl', 'bx', 'blx', 'movpc', 'ldrpc', 'tbb', 'tbh', 'ldmpc', 'ldmpcw', 'bx_arm', 'blx_arm', 'ldrpc_arm'] +
+                              ([] if (sp_loaded or stack_used) else ['poppc', 'poppc', 'poppcw', 'poppc_arm']))
+            # the *_arm forms are interworking branches to ARM state: the target is a three-word ARM stub in the data page that comes back to the
+            # Thumb continuation with LDR pc,[pc,#-4] (the block must have retired its ITSTATE although the next instruction is not a Thumb one)
             w = {'b': T.b(4), 'bw': 0xF000B801, 'bl': 0xF000F801, 'bx': T.bx(9), 'blx': 0x4780 | 9 << 3, 'movpc': 0x46CF,
+                 'bx_arm': T.bx(9), 'blx_arm': 0x4780 | 9 << 3, 'ldrpc_arm': 0xF8D6F0FC, 'poppc_arm': 0xBD10,
                  'ldrpc': 0xF8D6F0FC, 'tbb': 0xE8D6F00A, 'tbh': 0xE8D6F01B, 'poppc': 0xBD10, 'poppcw': 0xE8BD8010,
                  'ldmpc': 0xE89B8010, 'ldmpcw': 0xE8BB8010}[form]           # LDMIA.W r11{!}, {r4, pc}: r11 points at a prepared frame in the data page           # POP {r4,pc}: the compiler's conditional return          # LDR pc,[r6,#0xFC]: the word there is the target (Thumb bit set)
             slots.append({'t': 'b', 'w': w, 'form': form, 'name': 'branch_' + form})
@@ -430,7 +434,13 @@ def gen(item, rng, tier):
         tgt = addrs[-1] + size_of(slots[-1]['w'], True) + 2        # just behind the marker
         st['R']['R9usr'] = tgt | 1
         slots[-1]['target'] = tgt
-        G.set_data(devices[2], 0x4FC, (tgt | 1).to_bytes(4, bo))
+        dest = tgt | 1
+        if slots[-1].get('form', '').endswith('_arm'):
+            stub = P.DBASE + 0xC0
+            G.set_data(devices[2], 0x4C0, (0xE1A00000).to_bytes(4, 'little') + (0xE51FF004).to_bytes(4, 'little') + (tgt | 1).to_bytes(4, bo))      # NOP ; LDR pc,[pc,#-4] ; .word tgt|1
+            st['R']['R9usr'] = dest = stub
+            slots[-1]['target'] = stub
+        G.set_data(devices[2], 0x4FC, dest.to_bytes(4, bo))
         # TBB [r6, r10] / TBH [r6, r11, LSL #1]: r10 = 0xF8, r11 = 0x7A (table entries at DBASE+0xF8 / +0xF4), entry 1 = skip the 16-bit marker
         st['R']['R10usr'], st['R']['R11usr'] = 0xF8, 0x7A
         if slots[-1].get('form') in ('ldmpc', 'ldmpcw'):
@@ -438,9 +448,9 @@ def gen(item, rng, tier):
             G.set_data(devices[2], 0x4E8, (0x4444).to_bytes(4, bo) + (tgt | 1).to_bytes(4, bo))
         G.set_data(devices[2], 0x4F8, bytes([1]))
         G.set_data(devices[2], 0x4F4, (1).to_bytes(2, bo))
-        if slots[-1].get('form') in ('poppc', 'poppcw'):
+        if slots[-1].get('form') in ('poppc', 'poppcw', 'poppc_arm'):
             top = P.STACK_TOP['usr' if mode in ('usr', 'sys') else 'svc']
-            G.set_data(devices[3], top - G.STACKS, (0x4444).to_bytes(4, bo) + (tgt | 1).to_bytes(4, bo))
+            G.set_data(devices[3], top - G.STACKS, (0x4444).to_bytes(4, bo) + dest.to_bytes(4, bo))
     events = []
     pos = None
     if kind in ('irq', 'fiq'):
@@ -568,7 +578,7 @@ class ITObserver:
             if t == 'b':
                 if postR['PC'] != slot['target']:
                     b.violate('it.effect', slot.get('name', 'b'), 'passed_condition_no_effect', 'branch (%s) in the last slot not taken: PC %#x, target %#x' % (slot.get('form'), postR['PC'], slot['target']))
-                elif slot.get('form') in ('bl', 'blx') and post_r(14) != ((pc + size_of(slot['w'], True)) | 1):
+                elif slot.get('form') in ('bl', 'blx', 'blx_arm') and post_r(14) != ((pc + size_of(slot['w'], True)) | 1):
                     b.violate('it.effect', slot.get('name', 'b'), 'link_register', '%s: LR %#x, expected %#x' % (slot.get('form'), post_r(14), (pc + size_of(slot['w'], True)) | 1))
         elif pc == meta.get('epi_addr') and not entered and (post_cpsr >> 30) & 1:
             b.violate('it.flags', 'mov_imm8', 'flags_not_set_outside_it_block', 'MOVS #imm (word %#x) executed after the block left Z set: the same halfword was executed inside the block before' % arm.opcode)
